@@ -13,7 +13,7 @@ the end of every operation.
 
 Not here: the E-thr scenario (two threads in quit() at line granularity) - added by the lead.
 """
-import functools, gc, io, itertools, logging, operator, os, sys, time, warnings
+import functools, gc, io, itertools, logging, operator, os, sys, time, warnings, weakref
 from mc.engine import explore, pmap, Ctx
 from mc.report import Report, digest
 from mc.refs.c08_model import Model
@@ -141,7 +141,8 @@ def _import ():
   P.KIND_OF = dict((c, k) for k, c in P.KINDS.items())
 
   class SinkBase (object):
-    def __init__ (self, w, kind): self.w = w; self.kind = kind
+    # kind: row of P.SINKS; ser: which object (several of one class may exist); n: its latest declaration
+    def __init__ (self, w, kind, ser=0): self.w = w; self.kind = kind; self.ser = ser; self.n = 0
   class S_foo (SinkBase):                      # no completion callback: wiring seen by probing only
     def _handle_foo_Ev (self, e): self.w.sink_hit(self, "foo")
   class S_foobar (SinkBase):                   # component name with an underscore
@@ -175,6 +176,9 @@ def _import ():
     def _handle_foo_bar_Ev (self, e): self.w.sink_hit(self, "foo_bar")
     def _handle_baz_Ev (self, e): self.w.sink_hit(self, "baz")
     def _all_dependencies_met (self): self.w.sink_ready(self)
+  class S_ro (SinkBase):                       # the attribute done() wants to set for the component cannot be set: the
+    c08_broken = True                          # wiring step fails inside core's own callback, before anything of the
+    _foo_bar_ = property(lambda self: None)    # sink is called (what else of it still happens is not constrained)
   P.SinkBase = SinkBase
   # kind -> (name, class, deps (None: computed per call), components that have an Ev handler, has completion
   #          callback, ltd kwargs; ("shared", form) stands for the execution's one shared set / list object)
@@ -200,6 +204,7 @@ def _import ():
     ("S_both_wild", S_both, ("foo", "foo_bar"),   ("foo", "foo_bar"), True,
      {"listen_args": {None: {"priority": -10}}}),
     ("S_expl",    S_expl,    ("baz", "foo", "foo_bar"), ("foo",),     True,  {"components": ["foo_bar", "baz"]}),
+    ("S_ro",      S_ro,      ("foo_bar",),        (),                 False, {"components": ["foo_bar"]}),
   ]
   P.SHARED_INIT = ("foo",)                     # what the caller wrote into the shared collection
   _P = P
@@ -226,6 +231,18 @@ class Env (object):
     gc.collect = self.collect
     _CUR = None
     return False
+
+
+def _allocate (cls, address=None):
+  """An uninitialised instance of cls; with `address` (of an object of the same class freed just now) the instance
+  the allocator places there, if it does so within a bounded number of requests."""
+  if address is not None:
+    others = []
+    for i in range(2048):
+      c = object.__new__(cls)
+      if id(c) == address: return c
+      others.append(c)
+  return object.__new__(cls)
 
 
 def _snap (x):
@@ -331,13 +348,19 @@ class World (object):
     self.next_wid = 0
     self.invocations = 0
     self.objects = {}             # (name, gen) -> object
-    self.sinks = {}               # kind -> sink object
-    self.sink_deps = {}           # kind -> components the sink named in its listen_to_dependencies call
+    self.sinks = {}               # kind -> sink object (the one declared last)
+    self.sink_n = {}              # kind -> number of listen_to_dependencies calls made for sinks of this kind
+    self.sink_objs = {}           # wid -> sink object, while that declaration has not been verified as wired
+    self.wid_ser = {}             # wid -> serial number of the sink object that declared it
+    self.sink_how = {}            # wid -> how a sink kind came to be declared once more (see do_ltd)
+    self.sink_out = {}            # wid -> "ok" / "failed": how the completion callback of that wiring ended
+    self.nsinks = 0
+    self.sink_deps = {}           # wid -> components the sink named in its listen_to_dependencies call
     self.sink_opts = {}           # kind -> {component: addListeners options requested (model)}
     self.probe_order = []         # call order within one probe raise: "ref" (harness listener) / (kind, comp)
     self.shared = {"set": set(P.SHARED_INIT), "list": list(P.SHARED_INIT)}   # one object each per execution
-    self.sink_base = {}           # kind -> number of register calls before core wiring
-    self.sink_crs = {}            # kind -> ComponentRegistered deliveries
+    self.sink_base = {}           # wid -> number of register calls before core wiring
+    self.sink_crs = {}            # (kind, serial) -> ComponentRegistered deliveries to that sink object
     self.cr_log = []
     self.probing = False
     self.probe_hits = []
@@ -429,7 +452,15 @@ class World (object):
       if form is not None: s += ":empty-deps-" + form
       elif ready: s += ":ready-at-declaration"
       else: s += ":completed-by-register"
+    if wid in self.sink_how: s += ":" + self.sink_how[wid]
     return s
+
+  def swid (self, sink):
+    return ("s", sink.kind, sink.n)
+
+  def sink_feature (self, kind):
+    """Sink class; says so when sinks of that class were declared more than once in this history."""
+    return self.P.SINKS[kind][0] + (":declared-more-than-once" if self.sink_n.get(kind, 0) > 1 else "")
 
   def sink_name (self, kind):
     return self.P.SINKS[kind][0]
@@ -443,6 +474,7 @@ class World (object):
     elif "L" in v: f = "release-after-goUp"
     else: f = "no-deferral"
     if self.took: f = "component-takes"       # deferrals also taken outside GoingUp handlers (launch / later stage)
+    if "after-up" in self.took: f = "deferral-taken-after-up"     # ... even when there was nothing left to defer
     return f
 
   # ---- listeners on core ---------------------------------------------------
@@ -600,13 +632,13 @@ class World (object):
   # ---- sinks -----------------------------------------------------------------
   def sink_hit (self, sink, comp):
     if self.probing:
-      self.probe_hits.append((self.probe_target, sink.kind, comp))
+      self.probe_hits.append((self.probe_target, sink.kind, sink.ser, comp))
       self.probe_order.append((sink.kind, comp))
     else:
       self.fail("sink-spurious-event", "sink %s got an event of %s outside a probe" % (sink.kind, comp), self.sink_name(sink.kind))
 
   def sink_cr (self, sink, event):
-    self.sink_crs[sink.kind] = self.sink_crs.get(sink.kind, 0) + 1
+    self.sink_crs[(sink.kind, sink.ser)] = self.sink_crs.get((sink.kind, sink.ser), 0) + 1
 
   def sink_ready (self, sink):
     P = self.P
@@ -615,20 +647,24 @@ class World (object):
     reg = tuple(sorted(self.core.components))
     self.oplog.append(("wired", name, reg))
     self.note("  sink %s wired, registry=%s", name, reg)
-    err = self.model.invoked(("s", sink.kind), reg)
+    wid = self.swid(sink)
+    err = self.model.invoked(wid, reg)
     if err:
-      self.fail(err[0], err[1], self.subject(("s", sink.kind))); return
-    self.sink_base[sink.kind] = len(self.model.reg_calls)
+      self.fail(err[0], err[1], self.subject(wid)); return
+    self.sink_base[wid] = len(self.model.reg_calls)
+    self.sink_out[wid] = "ok"
     self.check_attrs(sink)
     if self.violated or self.invocations > INVOCATION_LIMIT: return
     b = self.ctx.choose(2, "sinkbeh")
     if b:
       self.note("    -> raise"); self.oplog.append(("beh", "raise"))
+      self.sink_out[wid] = "failed"
       raise ValueError("_all_dependencies_met of %s fails" % name)
 
   def check_attrs (self, sink):
     name, cls, deps, handled, adm, kw = self.P.SINKS[sink.kind]
-    for d in sorted(self.sink_deps[sink.kind]):
+    if getattr(cls, "c08_broken", False): return
+    for d in sorted(self.sink_deps[self.swid(sink)]):
       an = d if kw.get("short_attrs") else "_%s_" % d
       got = getattr(sink, an, None)
       if got is None or got is not self.core.components.get(d):
@@ -662,21 +698,24 @@ class World (object):
         # a handler is wired iff the component object bound at wiring time raises Ev (declared event set);
         # for any other kind of object (empty set, plain object, ...) there is nothing to wire
         if isinstance(self.objects.get((comp, bound[comp])), P.Comp):
-          expected.append(((comp, bound[comp]), wid[1], comp))
+          expected.append(((comp, bound[comp]), wid[1], self.wid_ser[wid], comp))
     got = sorted(self.probe_hits); expected.sort()
-    if got != expected:
-      extra = [x for x in got if x not in expected]
-      missing = [x for x in expected if x not in got]
-      dup = [x for x in set(got) if got.count(x) > 1]
+    # a handler is called once per event; where ONE sink object was wired to the same component object by several
+    # of its declarations (a retry after its completion callback failed) once per wiring at most
+    dup = sorted(x for x in set(got) if got.count(x) > max(1, expected.count(x)))
+    extra = [x for x in got if x not in expected]
+    missing = [x for x in expected if x not in got]
+    if dup or extra or missing:
       if dup: x = dup[0]; what = "duplicate"
       elif extra:
         x = extra[0]
-        wid = ("s", x[1])
-        what = "early" if wid in self.model.pending else ("wrong-object" if wid in self.model.fired else "undeclared")
+        wids = [wid for wid, ser in self.wid_ser.items() if wid[1] == x[1] and ser == x[2]]
+        what = ("wrong-object" if any(wid in self.model.fired for wid in wids) else
+                "early" if any(wid in self.model.pending for wid in wids) else "undeclared")
       else: x = missing[0]; what = "missing"
       self.fail("sink-wiring-" + what,
-                "probing component objects: handlers called %s, expected %s" % (got, expected),
-                P.SINKS[x[1]][0])
+                "probing component objects: handlers called %s, expected %s (component object, sink class, "
+                "sink object, component)" % (got, expected), self.sink_feature(x[1]))
     if self.violated is None:
       # requested priority, relative to the harness' own listener (priority 0, subscribed when the object was made):
       # a handler asked for with a higher priority runs before it, any other one after it
@@ -691,13 +730,16 @@ class World (object):
           if (i < r) != (prio > 0):
             self.fail("sink-wiring-priority",
                       "event of %s: call order %s; sink %s asked for priority %d on %s (reference listener has 0)"
-                      % (key, order, P.SINKS[kind][0], prio, comp), P.SINKS[kind][0])
-    for kind, base in self.sink_base.items():
-      if "core" in self.sink_deps[kind]:
-        exp = len(self.model.reg_calls) - base
-        if self.sink_crs.get(kind, 0) != exp:
-          self.fail("sink-core-events", "sink %s wired to core saw %d ComponentRegistered, %d registrations since"
-                    % (P.SINKS[kind][0], self.sink_crs.get(kind, 0), exp), P.SINKS[kind][0])
+                      % (key, order, P.SINKS[kind][0], prio, comp), self.sink_feature(kind))
+    per_obj = {}                                 # sink object wired to core -> [registrations since, per wiring]
+    for wid, base in self.sink_base.items():
+      if "core" in self.sink_deps[wid]:
+        per_obj.setdefault((wid[1], self.wid_ser[wid]), []).append(len(self.model.reg_calls) - base)
+    for (kind, ser), since in sorted(per_obj.items()):
+      n = self.sink_crs.get((kind, ser), 0)      # (several wirings of one object: once per registration at least)
+      if not max(since) <= n <= sum(since):
+        self.fail("sink-core-events", "sink %s wired to core saw %d ComponentRegistered, %s registrations since its wiring(s)"
+                  % (P.SINKS[kind][0], n, since), self.sink_feature(kind))
 
   # ---- calls into core ---------------------------------------------------
   def do_register (self, name, kind=None):
@@ -728,15 +770,46 @@ class World (object):
     else:
       self.core.call_when_ready(cb, arg, **extra)
 
-  def do_ltd (self, kind):
+  def do_ltd (self, kind, how=None):
+    """listen_to_dependencies for a sink of class `kind`.  Where the configuration allows a class to be declared
+    more than once: how == "fresh": ANOTHER object of that class declares its interest (the previous one may still
+    be waiting, be wired, or have failed in its completion callback) and the dependent keeps the previous one;
+    how == "reuse": the previous object is not waiting any more and is dropped first; if that freed it (no component
+    holds it as its listener), the new object is the one the allocator places at ITS ADDRESS (where a new object
+    lives is enumerated, never left to chance: no other sink object is freed during an execution); how == "again": the SAME
+    object declares its interest once more after its completion callback failed (a retry).  Every declaration is a
+    waiter of its own: its wiring runs exactly once, when its components are there."""
     name, cls, deps, handled, adm, kw = self.P.SINKS[kind]
-    sink = cls(self, kind)
-    self.sinks[kind] = sink
+    n = self.sink_n.get(kind, 0); self.sink_n[kind] = n + 1
+    wid = ("s", kind, n)
+    if how is not None:
+      prev = ("s", kind, n - 1)
+      self.sink_how[wid] = ("same-sink-again-after-failed-wiring" if how == "again" else "another-sink-of-the-class-" +
+                            ("while-first-waits" if prev in self.model.pending else
+                             "after-failed-wiring" if self.sink_out.get(prev) == "failed" else "after-wiring"))
+    if how == "again":
+      sink = self.sinks[kind]
+      sink.n = n
+    else:
+      target = None
+      if how == "reuse":                         # (a finished declaration is not in sink_objs any more)
+        old = self.sinks.pop(kind)
+        target = id(old); alive = weakref.ref(old)
+        del old
+        if alive() is not None: target = None    # components hold it as their listener: nothing was freed
+      sink = _allocate(cls, target)
+      sink.__init__(self, kind, self.nsinks); self.nsinks += 1
+      if target is not None: self.note("  (the new sink object lives at the address of the dropped one: %s)", id(sink) == target)
+      sink.n = n
+      if kind in self.sinks: self.keep.append(self.sinks[kind])
+      self.sinks[kind] = sink
+    self.sink_objs[wid] = sink
+    self.wid_ser[wid] = sink.ser
     kw = dict(kw)
     la = kw.get("listen_args")
     if la is not None:                           # a fresh dict per call (the call consumes the wildcard entry)
       kw["listen_args"] = dict((k, dict(v)) for k, v in la.items())
-    self.sink_opts[kind] = dict((c, Model.listen_options(la, c)) for c in handled)
+    self.sink_opts[kind] = dict((c, Model.listen_options(la, c)) for c in handled)      # (same for every object of the class)
     arg = kw.get("components")
     form = None
     if isinstance(arg, tuple) and arg[0] == "shared":
@@ -745,9 +818,9 @@ class World (object):
     before = _snap(arg)
     # the components this sink names in THIS call: explicit argument (value now) + its own handler names
     mine = Model.sink_deps(arg, _handler_comps(self.P.SINKS[kind]))
-    self.sink_deps[kind] = mine
-    self.decl[("s", kind)] = (None, self.model.ready(mine))
-    self.model.declare(("s", kind), mine, silent=not adm)
+    self.sink_deps[wid] = mine
+    self.decl[wid] = (None, self.model.ready(mine))
+    self.model.declare(wid, mine, silent=not adm)
     self.calls += 1
     try:
       self.core.listen_to_dependencies(sink, **kw)
@@ -791,7 +864,7 @@ class World (object):
   def do_take (self, holder):
     """Component `holder` takes a deferral outside a GoingUp handler: while launching (before goUp) or as the
     next stage of its start-up after goUp returned (through the GoingUpEvent it kept)."""
-    self.took.add("launch" if self.model.starting else "late")
+    self.took.add("launch" if self.model.starting else "after-up" if "Up" in self.model.log else "late")
     self.calls += 1
     if self.goingup_event is not None: d = self.goingup_event.get_deferral()
     else: d = self.core._get_go_up_deferral()
@@ -848,8 +921,14 @@ class World (object):
       ops += st[1]
       for kind in prm["sinks"]:
         if kind not in self.sinks: ops.append(("ltd", kind))
+        elif self.sink_n[kind] < prm.get("resink", 1):
+          last = ("s", kind, self.sink_n[kind] - 1)
+          ops.append(("ltd", kind, "fresh"))
+          if last not in self.model.pending: ops.append(("ltd", kind, "reuse"))
+          if self.sink_out.get(last) == "failed": ops.append(("ltd", kind, "again"))
     if self.model.starting: ops += st[2]
-    if "Up" not in self.model.log:             # components defer start-up only while the system is not up yet
+    # (where not stated otherwise components defer start-up only while the system is not up yet)
+    if "Up" not in self.model.log or prm.get("take_after_up"):
       for c in range(prm.get("takers", 0)):
         if sum(1 for x in self.deferrals if x[2] == c) < prm["hold_max"]: ops.append(("take", c))
     for j in range(len(self.deferrals)):
@@ -863,7 +942,11 @@ class World (object):
     if op[0] == "cwr":
       return "call_when_ready(cb, %s as %s)%s" % ([n for i, n in enumerate(self.names) if op[1] >> i & 1], op[2],
              " [cb is a %s, arguments: %s]" % (op[3], op[4]) if len(op) > 3 else "")
-    if op[0] == "ltd": return "listen_to_dependencies(%s)" % self.P.SINKS[op[1]][0]
+    if op[0] == "ltd":
+      return "listen_to_dependencies(%s)" % self.P.SINKS[op[1]][0] + (
+        "" if len(op) < 3 else " by the SAME object once more" if op[2] == "again" else
+        " by ANOTHER object of that class" + ("; the dependent dropped the previous one before it made the new one"
+                                              if op[2] == "reuse" else ""))
     if op[0] == "reg": return "register(%s)" % op[1] + (" as %s object" % op[2] if len(op) > 2 else "")
     if op[0] == "goUp": return "goUp() with GoingUp handlers %r" % (op[1],)
     if op[0] == "release": return "release outstanding deferral #%d" % op[1]
@@ -881,7 +964,7 @@ class World (object):
       if k == "reg": self.do_register(op[1], op[2] if len(op) > 2 else None)
       elif k == "cwr":
         self.do_cwr([n for i, n in enumerate(self.names) if op[1] >> i & 1], op[2], *op[3:])
-      elif k == "ltd": self.do_ltd(op[1])
+      elif k == "ltd": self.do_ltd(op[1], *op[2:])
       elif k == "goUp": self.do_goup(op[1])
       elif k == "release": self.do_release(op[1])
       elif k == "take": self.do_take(op[1])
@@ -898,12 +981,15 @@ class World (object):
                   self.feature() + ":" + site_of(self.P, e))
       else: raise
     if self.violated is None: self.end_of_op()
+    for wid in [x for x in self.sink_objs if x in self.model.fired]:
+      del self.sink_objs[wid]                     # wired: from now on the harness holds the LATEST object of a class only
 
   def end_of_op (self):
     m = self.model
     errs, auto = m.quiescent()
     for wid in auto:
       self.note("  (model: sink %s must be wired now)", self.P.SINKS[wid[1]][0])
+      if getattr(self.P.SINKS[wid[1]][1], "c08_broken", False): self.sink_out[wid] = "failed"
     for c, t, wid in errs:
       self.fail(c, t, self.subject(wid, True)); return
     exp = [(n, g, True) for (n, g) in m.reg_calls]
@@ -917,7 +1003,7 @@ class World (object):
     self.probe()
     if self.violated: return
     for wid in auto:
-      self.check_attrs(self.sinks[wid[1]])
+      self.check_attrs(self.sink_objs[wid])
 
   # ---- canonical state (state matching) ----------------------------------
   def canon_val (self, x, depth=0):
@@ -954,20 +1040,53 @@ class World (object):
         # callback closes over - two histories only merge if that hidden state agrees too
         ws.append(tuple(self.canon_val(x) for x in e))
     sinks = []
+    again = self.prm.get("resink", 1) > 1
     for kind in self.prm["sinks"]:
-      wid = ("s", kind)
-      if kind not in self.sinks: sinks.append(0)
-      elif wid in self.model.fired:
-        b = self.model.fired[wid]
-        sinks.append((2, tuple((b[n] == self.model.comps.get(n, 0), P.KIND_OF.get(type(self.objects.get((n, b[n])))))
-                               for n in sorted(b) if n != "core")))
-      else: sinks.append(1)
+      # per declaration made for this class: waiting / wired to which (current? kind of) component objects; where a
+      # class may be declared again also which of its objects declared and how its completion callback ended (that
+      # decides which operations are possible next, and a failed wiring may leave its own traces in the core)
+      ds = []
+      sers = sorted(set(self.wid_ser[("s", kind, n)] for n in range(self.sink_n.get(kind, 0))))
+      for n in range(self.sink_n.get(kind, 0)):
+        wid = ("s", kind, n)
+        if wid in self.model.fired:
+          b = self.model.fired[wid]
+          st = (2, tuple((b[c] == self.model.comps.get(c, 0), P.KIND_OF.get(type(self.objects.get((c, b[c])))))
+                         for c in sorted(b) if c != "core"))
+        else: st = 1
+        ds.append((st, sers.index(self.wid_ser[wid]), self.sink_out.get(wid)) if again else st)
+      sinks.append(tuple(ds))
     return (tuple(sorted((n, P.KIND_OF.get(type(o))) for n, o in core.components.items())), tuple(ws),
             core.running, core.starting_up, len(core._go_up_deferrals), core.scheduler._hasQuit,
             tuple(x[2] for x in self.deferrals),
             tuple(sorted(repr(t) if isinstance(t, (int, str, tuple, float)) else "o" for t in core._go_up_deferrals)),
             len(self.threads), self.quits, len(self.later),
-            tuple(sinks), tuple(sorted(self.shared["set"])), tuple(self.shared["list"]), self.model.canon())
+            tuple(sinks), tuple(sorted(self.shared["set"])), tuple(self.shared["list"]), self.model.canon(),
+            self.core_rest())
+
+  # attributes of a POXCore object that are rendered field by field above, or never change during an execution
+  CORE_ATTRS = frozenset(("_eventMixin_handlers", "_eventMixin_initialized", "_eventMixin_prioritized",
+                          "_go_up_deferrals", "_handle_signals", "_openflow_wanted", "_quit_lock", "_waiters",
+                          "components", "debug", "quit_condition", "running", "scheduler", "starting_up"))
+
+  def core_rest (self):
+    """Whatever ELSE the core object holds (state this harness does not know by name): rendered generically, numbers
+    that are the id() of a live harness object as that object.  Two histories only merge if this agrees too."""
+    rest = [k for k in vars(self.core) if k not in self.CORE_ATTRS]
+    if not rest: return ()
+    ids = {}
+    for o in list(self.sinks.values()) + list(self.sink_objs.values()) + list(self.objects.values()):
+      ids[id(o)] = o
+    for e in self.core._waiters:
+      for x in (e[0],) + tuple(e[3]): ids.setdefault(id(x), x)
+    def val (x, depth=0):
+      if isinstance(x, int) and not isinstance(x, bool) and x in ids: return ("id-of", self.canon_val(ids[x]))
+      if depth < 4 and isinstance(x, (set, frozenset)): return ("set", tuple(sorted((val(v, depth + 1) for v in x), key=repr)))
+      if depth < 4 and isinstance(x, (list, tuple)): return (type(x).__name__, tuple(val(v, depth + 1) for v in x))
+      if depth < 4 and isinstance(x, dict):
+        return ("dict", tuple(sorted(((val(k, depth + 1), val(v, depth + 1)) for k, v in x.items()), key=repr)))
+      return self.canon_val(x, depth)
+    return tuple((k, val(vars(self.core)[k])) for k in sorted(rest))
 
 
 def make_run (P, prm, limit, check_from=0):
@@ -1000,7 +1119,7 @@ def params (cfg):
   # start-up deferrals: every take / release / goUp history; components take deferrals while launching, in GoingUp
   # handlers and as later stages after goUp returned (non-monotone: new ones while others are outstanding)
   defer = dict(nc=0, maxp=0, depth=cfg.pick(7, 8), dev=0, sinks=[], goup=GOUP_VARIANTS, noquit=True, cwr_masks=[],
-               takers=2, hold_max=3, forms=(("str",), ("list",)))
+               takers=2, hold_max=3, take_after_up=True, forms=(("str",), ("list",)))
   # listen_args dimension of the dependency wiring: wildcard / wildcard + own entry / own entries / none, on sinks
   # with two and three event-raising dependencies; every order of declaration and (re-)registration
   wiring = dict(nc=3, maxp=3, depth=cfg.pick(6, 7), dev=1, sinks=[10, 11, 12, 13, 2], goup=[""], noquit=True,
@@ -1029,14 +1148,21 @@ def params (cfg):
   # the same with TWO non-default picks per history (a listener calls quit() and another one fails inside that quit; two
   # listeners fail; a waiter callback registers a component whose announcement fails ...) on a smaller alphabet
   listeners2 = dict(listeners, nc=1, maxp=1, depth=cfg.pick(5, 6), dev=2, sinks=[0], goup=["", "L"], cwr_masks=[1])
+  # a sink class declared MORE THAN ONCE in a history: another object of the class while the first still waits / after
+  # it was wired / after its completion callback failed (the dependent then drops the old object, so the new one may
+  # well live at the same address), and the same object once more after its completion callback failed (a retry);
+  # components that raise events (they keep a wired sink alive as their listener) and plain ones (they do not)
+  resink = dict(nc=2, maxp=2, depth=5, dev=2, sinks=[1, 0, 2, 15], goup=[""], noquit=True, cwr_masks=[2],
+                kinds=["plain"], resink=cfg.pick(2, 3), forms=(("str",), ("list",)))
   for label, p in (("q", q), ("shared", shared), ("defer", defer), ("wiring", wiring), ("kinds", kinds),
-                   ("callables", callables), ("listeners", listeners), ("listeners2", listeners2)):
+                   ("callables", callables), ("listeners", listeners), ("listeners2", listeners2), ("resink", resink)):
     p["_label"] = label
-  if cfg.quick: return [q, shared, defer, wiring, kinds, callables, listeners, listeners2]
+  if cfg.quick: return [q, shared, defer, wiring, kinds, callables, listeners, listeners2, resink]
   deep = dict(q, maxp=4, depth=6, _label="deep")
   wide = dict(nc=4, maxp=5, depth=4, dev=3, sinks=[0, 1, 2, 3, 4, 5], goup=GOUP_VARIANTS,
               forms=(("str", "list"), ("list", "tuple", "set")), _label="wide")
-  return [deep, wide, shared, defer, wiring, dict(kinds, depth=6, maxp=3), callables, dict(listeners, depth=6), listeners2]
+  return [deep, wide, shared, defer, wiring, dict(kinds, depth=6, maxp=3), callables, dict(listeners, depth=6), listeners2,
+          dict(resink, depth=6)]
 
 
 def public (prm):
@@ -1073,6 +1199,11 @@ def _expand (args):
 
 
 LATTICE_RULE = (
+  " || name-collision lattices: a component whose name is also an attribute of the core object %s (+ an ordinary "
+  "name for the sink lattice): (a) call_when_ready x declaration form x order; (b) listen_to_dependencies with the "
+  "component named by %s x %s x component object %s x order: the wiring runs once, not before the component is "
+  "REGISTERED, the attribute set on the sink is the registered object, an event it raises reaches the handler once, an "
+  "unrelated registration runs nothing."
   " || API-form lattice (full product, one fresh core per case): a waiter whose callback is a callable of kind %s "
   "(builtin-method = list.append: args forms and `return` only; none = callback None: `return` only) x waiter name "
   "%s x declared arguments %s x how the callback ends %s x %s x its position among %d waiters for the same component "
@@ -1112,9 +1243,21 @@ RULE = ("breadth-first over canonical states of a real POXCore: every history of
         "picks count as non-default picks.  A listener's exception that comes out of goUp / release / quit / register "
         "is by itself not a violation; the rendezvous and life-cycle clauses are demanded unchanged: GoingDown then "
         "Down once per effective quit and every ready waiter run by the end of the operation, whatever a listener did. "
+        "Where stated A SINK CLASS IS DECLARED MORE THAN ONCE in a history: another object of the class while the first "
+        "still waits / after it was wired / after its completion callback failed - made either while the dependent still "
+        "holds the previous object, or after it dropped it, in which case (if no component holds the old one as its "
+        "listener) the new object is the one the allocator places at the freed ADDRESS; and the same object once more "
+        "after its completion callback failed (a retry).  Every declaration is a waiter of its own (wired exactly once, "
+        "when its components are there; a handler of an object wired k times to one component object is called 1..k "
+        "times per event).  Sink class S_ro cannot take the attribute core sets for its component: its wiring fails "
+        "inside core's own callback before anything of the sink runs (only the other waiters are constrained then). "
+        "Where stated a component takes a deferral also AFTER UpEvent (through the GoingUpEvent it kept) and releases "
+        "it later: UpEvent stays raised exactly once. "
         "One representative history per distinct (state, fewest deviations) is extended; state = components, "
         "_waiters in order, running/starting_up/deferrals/scheduler flags, outstanding deferrals, parked quit threads, "
-        "sink wiring incl. stale bindings, event log, model state. After every new operation every component object "
+        "sink wiring incl. stale bindings (where a class may be declared again: per declaration, with the declaring "
+        "object and how its completion callback ended), event log, model state, and generically every attribute of the "
+        "core object not rendered by name (state the harness does not know of keeps histories apart). After every new operation every component object "
         "ever registered is probed with an event. distinct = (operation, observations, verdict) digests. "
         "Configurations: %s")
 
@@ -1125,6 +1268,12 @@ RULE = ("breadth-first over canonical states of a real POXCore: every history of
 COLLIDING = ("version", "scheduler", "debug", "running", "components", "starting_up", "log")
 
 def collision_part (rep):
+  out = sys.stdout; sys.stdout = _Null()       # (a new core prints its banner)
+  try: _collision_part(rep)
+  finally: sys.stdout = out
+
+
+def _collision_part (rep):
   """A waiter naming a component whose name is also an attribute of POXCore ("version", "scheduler", ...) must
   still wait for that component to be REGISTERED (every name x declaration form x order)."""
   P = _import()
@@ -1156,6 +1305,72 @@ def collision_part (rep):
         rep.outcome(("collision", name, order, form, bad and bad[0]))
         if bad:
           rep.violation("%s:%s" % (PID, bad[0]), bad[1] + " [%s, deps as %s]" % (order, form), dict(collision=dict(name=name, order=order, form=form)))
+
+
+SINK_NAMING = ("handler", "explicit-str", "explicit-list", "handler+explicit")
+SINK_ATTRS = ("attrs", "short_attrs", "no-attrs")
+SINK_COMPONENT = ("events", "plain")
+
+def sink_collision_case (P, case):
+  """The same for dependency-driven wiring: a sink names (by a _handle_<name>_Ev method and / or explicitly) a
+  component whose name is also an attribute of the core object.  Its wiring runs once, not before that component is
+  REGISTERED, and it is wired to the registered object: the attribute it gets is that object, and an event raised
+  by that object reaches its handler once."""
+  name, order, naming, attrs, ckind = case
+  core = P.core.POXCore(threaded_selecthub=False, handle_signals=False)
+  P.core.core = core
+  met, hits = [], []
+  body = {"_all_dependencies_met": lambda self: met.append(name in core.components)}
+  if "handler" in naming: body["_handle_%s_Ev" % name] = lambda self, e: hits.append(e)
+  sink = type("CollidingSink", (object,), body)()
+  kw = {}
+  if "explicit" in naming: kw["components"] = [name] if naming == "explicit-list" else name
+  if attrs == "short_attrs": kw["short_attrs"] = True
+  elif attrs == "no-attrs": kw["attrs"] = False
+  obj = P.KINDS[ckind](name, 0)
+  bad = None
+  try:
+    if order == "declare-first":
+      core.listen_to_dependencies(sink, **kw)
+      if met: bad = ("wired-before-registered", "listen_to_dependencies ran the wiring although no component %r is registered" % (name,))
+      core.register(name, obj)
+      if not bad and len(met) != 1: bad = ("not-wired-on-register", "register(%r) ran the waiting sink's wiring %d times" % (name, len(met)))
+    else:
+      core.register(name, obj)
+      core.listen_to_dependencies(sink, **kw)
+      if len(met) != 1: bad = ("not-wired-at-declaration", "the wiring ran %d times although %r was already registered" % (len(met), name))
+    if not bad and not met[-1]: bad = ("wired-without-component", "the wiring ran while %r was not among the registered components" % (name,))
+    if not bad:
+      core.register("unrelated", object())
+      if len(met) != 1: bad = ("wired-again", "an unrelated registration ran the wiring again")
+    if not bad and attrs != "no-attrs":
+      an = name if attrs == "short_attrs" else "_%s_" % name
+      got = vars(sink).get(an, None)
+      if got is not obj:
+        bad = ("attr-wrong-object", "after the wiring sink.%s is %s, not the object registered as component %r"
+               % (an, "not set" if an not in vars(sink) else "another object (a %s)" % type(got).__name__, name))
+    if not bad and "handler" in naming and ckind == "events":
+      obj.raiseEvent(P.Ev())
+      if len(hits) != 1:
+        bad = ("handler-not-wired" if not hits else "handler-wired-twice",
+               "an event raised by the object registered as %r reached the sink's handler %d times" % (name, len(hits)))
+  except Exception as e:
+    bad = ("raises:" + site_of(P, e), "%s with component name %r: %s" % (order, name, _txt(e)))
+  return bad, (len(met), len(hits))
+
+
+def sink_collision_part (rep):
+  P = _import()
+  w = World(P, None, dict(nc=0))
+  with Env(w):
+    for case in itertools.product(COLLIDING + ("ordinary",), ("declare-first", "register-first"), SINK_NAMING,
+                                  SINK_ATTRS, SINK_COMPONENT):
+      bad, seen = sink_collision_case(P, case)
+      rep.evaluations += 1; rep.transitions += 3
+      rep.outcome(("sink-collision", case, seen, bad and bad[0]))
+      if bad:
+        rep.violation("%s:sink-collision:%s" % (PID, bad[0]), bad[1] + " [component name also an attribute of core; %r]" % (case,),
+                      dict(sink_collision=list(case)))
 
 
 # ---------------------------------------------------------------------------------------
@@ -1452,6 +1667,7 @@ def quit_race_run (ctx):
 def quit_race_part (cfg, rep):
   import gc
   gc.disable()
+  out = sys.stdout; sys.stdout = _Null()       # (a new core prints its banner)
   try:
     n = [0]
     def on_exec (ctx, res):
@@ -1464,6 +1680,7 @@ def quit_race_part (cfg, rep):
         rep.violation("%s:%s" % (PID, bad[0]), bad[1], dict(quit_race=True, choices=ctx.choices()))
     explore(quit_race_run, dev_bound=cfg.pick(2, 3), on_exec=on_exec)
   finally:
+    sys.stdout = out
     gc.collect(); gc.enable()
 
 
@@ -1477,13 +1694,15 @@ def run (cfg):
     "components=%s DEPTH=%d MAXP=%d DEV=%d sinks=%s forms=%s goUp=%s%s"
     % (NAMES[:p["nc"]], p["depth"], p["maxp"], p["dev"], [P.SINKS[k][0] for k in p["sinks"]], p["forms"], p["goup"],
        (" no-quit" if p.get("noquit") else "") + (" waiters-only-on-masks=%s" % p["cwr_masks"] if p.get("cwr_masks") else "")
-       + (" deferral-takers=%d(<=%d held each)" % (p["takers"], p["hold_max"]) if p.get("takers") else "")
+       + (" deferral-takers=%d(<=%d held each%s)" % (p["takers"], p["hold_max"], ", also after UpEvent" if p.get("take_after_up") else "")
+          if p.get("takers") else "")
        + (" register-also-as=%s" % (p["kinds"],) if p.get("kinds") else "")
+       + (" each-sink-class-declared-up-to-%d-times(another object / same object again)" % p["resink"] if p.get("resink") else "")
        + (" callbacks-also-as(kind of callable, declared arguments)=%s" % (p["callables"],) if p.get("callables") else "")
        + (" component-listeners-on=%s x%d fault-kinds=%s" % (p["listeners"], p.get("nlisteners", 2), p["lfaults"])
           if p.get("listeners") else ""))
     for p in prms))
-  rep.rule += LATTICE_RULE % (LATTICE_KINDS, NAME_MODES, ARG_MODES, ENDINGS, ORDERS, cfg.pick(3, 4), DEP_FORMS,
+  rep.rule += LATTICE_RULE % (COLLIDING, SINK_NAMING, SINK_ATTRS, SINK_COMPONENT, LATTICE_KINDS, NAME_MODES, ARG_MODES, ENDINGS, ORDERS, cfg.pick(3, 4), DEP_FORMS,
                               REG_FORMS, CALLABLE_KINDS + ("method-equal",), SHARED_VARIANTS, ("return", "ValueError"))
   rep.bound = dict(configurations=[dict(depth=p["depth"], deviations=p["dev"], components=p["nc"],
                                         pending_waiters=p["maxp"], sinks=len(p["sinks"]),
@@ -1493,6 +1712,8 @@ def run (cfg):
                    callable_lattice=dict(kinds=len(LATTICE_KINDS), names=len(NAME_MODES), arguments=len(ARG_MODES),
                                          endings=len(ENDINGS), orders=len(ORDERS), waiters=cfg.pick(3, 4),
                                          component_forms=len(DEP_FORMS), registration_forms=len(REG_FORMS)),
+                   collision_lattices=dict(names=len(COLLIDING), callback_cases=len(COLLIDING) * 8,
+                                           sink_cases=(len(COLLIDING) + 1) * 2 * len(SINK_NAMING) * len(SINK_ATTRS) * len(SINK_COMPONENT)),
                    shared_callable_lattice=dict(kinds=len(CALLABLE_KINDS) + 1, variants=len(SHARED_VARIANTS),
                                                 endings=2, permutations=24))
   rep.assumptions = [
@@ -1510,6 +1731,12 @@ def run (cfg):
     "waiter names given explicitly are strings; the SAME callable declared twice with identical components and "
     "arguments is not constrained (two waiters or one - the statement is silent)",
     "the dynamically made callback class names no loaded module (inspect has no source file to search)",
+    "one sink OBJECT declared again while its earlier declaration still waits, or after it was wired successfully, is "
+    "not constrained (one wiring or two - the statement is silent) and not enumerated; declared again after its "
+    "completion callback failed it is a new waiter.  Sink objects are only freed where the history says the dependent "
+    "dropped one before making the next (CPython then hands the freed block to the next object of that size, which "
+    "the harness requests: <= 2048 allocations); all other sink objects stay alive to the end of the execution",
+    "a deferral taken after UpEvent has nothing left to defer; releasing it must not raise UpEvent again",
     "component listeners on core's events: a listener that fails or halts ends the delivery of that event to the "
     "listeners behind it (revent semantics, unconstrained); the harness' observers are ahead of all of them.  After a "
     "goUp that did not return (a GoingUp / Up listener's failure came out of it) UpEvent is not demanded (boot treats "
@@ -1527,7 +1754,7 @@ def run (cfg):
   for prm in prms:
     levels = bfs(cfg, prm, rep)
     rep.extra["new_states_per_level"].append(levels)
-  if only is None or "collision" in only: collision_part(rep)
+  if only is None or "collision" in only: collision_part(rep); sink_collision_part(rep)
   if only is None or "lattice" in only: callable_part(cfg, rep)
   if only is None or "quitrace" in only: quit_race_part(cfg, rep)
   return rep
@@ -1573,6 +1800,11 @@ def replay (cfg, data):
     with Env(World(P, None, dict(nc=0))):
       bad, trace = fn(P, data["case"])
     return bool(bad), "%s lattice case %r\nobserved per step: %r\n=> %r" % (data["lattice"], data["case"], trace, bad)
+  if "sink_collision" in data:
+    with Env(World(P, None, dict(nc=0))):
+      bad, seen = sink_collision_case(P, tuple(data["sink_collision"]))
+    return bool(bad), "sink naming a component whose name is an attribute of core: %r\n(wirings, handler calls) = %r => %r" % (
+      data["sink_collision"], seen, bad)
   if "collision" in data:
     r = Report(PID, "model_checking"); collision_part(r)
     c = data["collision"]
